@@ -83,6 +83,16 @@ def build(seed: int):
             sws[rng.randrange(len(sws))] = RichSwitch(_custom_name=RichString(sorted(named)[rng.randrange(len(named))]))
     if sws and dup_name:
         sws[0] = RichSwitch(_custom_name=RichString(dup_name))     # referred to by the shared name only
+    named_by_edit = None
+    if rng.random() < 0.6:
+        # a switch the map's own triggers use BY NUMBER ONLY (no name in SWNM) is given a name by the edit: an authored switch
+        # carrying that number and a name, next to the bare references the loaded triggers hold
+        vsw = SC.SpecView(base)
+        bare = sorted({e["_switch"][0] for t_ in vsw.triggers() for part in ("conditions", "actions") for e in t_[part]
+                       if isinstance(e, dict) and "_switch" in e and not e["_switch"][1]})
+        if bare:
+            named_by_edit = RichSwitch(_custom_name=RichString("Door open"), _index=bare[rng.randrange(len(bare))])
+            sws.append(named_by_edit)
     cws = [RichCuwpSlot(10 + i, 20 + i, 30 + i, _resource_amount=i, _cloaked=bool(i % 2)) for i in range(nc)]
     units = [UnitId.TERRAN_MARINE, UnitId.ZERG_ZERGLING, UnitId.PROTOSS_ZEALOT]
     trigs = []
@@ -105,6 +115,8 @@ def build(seed: int):
                                                _group=PlayerId.ALL_PLAYERS, _destination_location=rng.choice(locs)))
             else:
                 acts.append(CenterViewAction(_location=rng.choice(locs)))
+        if named_by_edit is not None and t == 0:
+            acts.append(SetSwitchAction(_switch=named_by_edit, _switch_action=SwitchAction.SET))
         trigs.append(RichTrigger(_conditions=conds, _actions=acts, _players={PlayerId.PLAYER_1, PlayerId.FORCE_2}))
     trig = next(s for s in rich.chk_sections if isinstance(s, RichTrigSection))
     new_trig = RichTrigEditor.add_triggers(trigs, trig)
